@@ -52,7 +52,8 @@ Print Assumptions C17_parse_type_str_total.
    the parser never gets into) ... *)
 Definition y_op (t : str) : option nat := if str_eqb t [102]%N then Some 0 else None.     (* f *)
 Definition y_ty (t : str) : option (nat * nat) :=
-  if str_eqb t [65]%N then Some (5, 0) else if str_eqb t [70]%N then Some (6, 1) else None.
+  if str_eqb t [65]%N then Some (5, 0) else if str_eqb t [70]%N then Some (6, 1)
+  else if str_eqb t [66]%N then Some (7, 0) else None.                                   (* A, F/1, B *)
 Definition y_dec (c : N) : option nat :=
   if (N.leb 48 c && N.leb c 57)%N then Some (N.to_nat (c - 48)) else None.
 Definition y_step (s : list event) (e : event) : list event + perr := inl (e :: s).
@@ -75,4 +76,17 @@ Example y_probes :
   p [41; 32; 58; 32; 65]%N = Err EBracket /\
   p [102; 32; 178]%N = Err EUndefined /\
   parse_type_str y_ty [42; 32; 65]%N = Err EParse.
+Proof. repeat split; vm_compute; reflexivity. Qed.
+
+(* `*` after an unmatched `)` consumed the bottom of the stack: the scan for a pending
+   operator ends at the bottom, the outcome is BracketMismatch.
+   "A) * B"   "F(A)) * B"   "(A * B)) * A"   "A, B) * A"   "_ ) * _" *)
+Example y_star_scan :
+  let p := parse_type_str y_ty in
+  p [65; 41; 32; 42; 32; 66]%N = Err EBracket /\
+  p [70; 40; 65; 41; 41; 32; 42; 32; 66]%N = Err EBracket /\
+  p [40; 65; 32; 42; 32; 66; 41; 41; 32; 42; 32; 65]%N = Err EBracket /\
+  p [65; 44; 32; 66; 41; 32; 42; 32; 65]%N = Err EBracket /\
+  p [95; 32; 41; 32; 42; 32; 95]%N = Err EBracket /\
+  star_collapse [TInst (PApp 5 []); TInst (PApp 7 [])] = Ok [TInst (PApp 5 []); TInst (PApp 7 [])].
 Proof. repeat split; vm_compute; reflexivity. Qed.
